@@ -558,6 +558,8 @@ class FieldCompiler(MessageCompiler):
         py_type = self.py_type
         if self.use_builtins:
             py_type = f"builtins.{py_type}"
+            # the header is rendered after the body, so this is still in time
+            self.output_file.builtins_import = True
         if self.repeated:
             return self.typing_compiler.list(py_type)
         if self.optional:
